@@ -156,6 +156,9 @@ func (b *StscBox) Info(w io.Writer, specificBoxLevels, indent, indentStep string
 
 // AddEntry adds a new entry and calculates helper values.
 func (b *StscBox) AddEntry(firstChunk, samplesPerChunk, sampleDescriptionID uint32) error {
+	if samplesPerChunk == 0 {
+		return fmt.Errorf("stsc entry with firstChunk %d has samplesPerChunk == 0", firstChunk)
+	}
 	switch {
 	case len(b.Entries) == 0:
 		if firstChunk != 1 {
@@ -201,6 +204,9 @@ func (b *StscBox) SetSingleSampleDescriptionID(sampleDescriptionID uint32) {
 func (b *StscBox) ChunkNrFromSampleNr(sampleNr int) (chunkNr, firstSampleInChunk int, err error) {
 	entryNr := b.FindEntryNrForSampleNr(uint32(sampleNr), 0)
 	entry := b.Entries[entryNr]
+	if entry.SamplesPerChunk == 0 {
+		return 0, 0, fmt.Errorf("stsc entry %d has samplesPerChunk == 0", entryNr+1)
+	}
 	nrInEntry := (uint32(sampleNr) - entry.FirstSampleNr) / entry.SamplesPerChunk
 	chunkNr = int(entry.FirstChunk + nrInEntry)
 	firstSampleInChunk = int(entry.FirstSampleNr + nrInEntry*entry.SamplesPerChunk)
